@@ -112,7 +112,26 @@ func closeScenario(kind string, capacity, before, bound int) *vsched.Scenario {
 		Body: func() {
 			var post func(k int)
 			var closeIt func()
-			if kind == "handler" {
+			if kind == "handler-via-monadio-observe" || kind == "handler-via-monadio-subscribe" || kind == "handler-via-publisher" {
+				// the same Handler reached through the features that deliver on one: what they submit after Close has
+				// returned is dropped like a direct Post
+				h := fpgo.Handler.NewByCh(make(chan func(), capacity))
+				post = func(k int) {
+					work := func() { vsched.Event("enter", 0, k); vsched.Yield(); vsched.Event("leave", 0, k) }
+					switch kind {
+					case "handler-via-monadio-observe":
+						fpgo.MonadIONewGenerics(func() int { work(); return k }).ObserveOn(h).Subscribe(fpgo.Subscription[int]{OnNext: func(int) {}})
+					case "handler-via-monadio-subscribe":
+						fpgo.MonadIOJustGenerics(k).SubscribeOn(h).Subscribe(fpgo.Subscription[int]{OnNext: func(int) { work() }})
+					default:
+						p := fpgo.PublisherNewGenerics[int]()
+						p.SubscribeOn(h)
+						p.Subscribe(fpgo.Subscription[int]{OnNext: func(int) { work() }})
+						p.Publish(k)
+					}
+				}
+				closeIt = h.Close
+			} else if kind == "handler" {
 				h := fpgo.Handler.NewByCh(make(chan func(), capacity))
 				post = func(k int) {
 					h.Post(func() { vsched.Event("enter", 0, k); vsched.Yield(); vsched.Event("leave", 0, k) })
@@ -357,8 +376,12 @@ func payloadScenario(capacity int, bound int) *vsched.Scenario {
 // (the effect replies late, or never); the messages sent to the same actor before and after it are each
 // processed exactly once, in order - a reply nobody waits for any more must not wedge the mailbox.
 func askMixScenario(late string, capacity, bound int) *vsched.Scenario {
+	return askMixScenarioT(late, capacity, 5*time.Millisecond, bound)
+}
+
+func askMixScenarioT(late string, capacity int, timeout time.Duration, bound int) *vsched.Scenario {
 	return &vsched.Scenario{
-		Name:  fmt.Sprintf("actor/ask-times-out-reply-%s/cap%d", late, capacity),
+		Name:  fmt.Sprintf("actor/ask-times-out-reply-%s/cap%d/timeout%v", late, capacity, timeout),
 		Bound: bound,
 		Body: func() {
 			actor := fpgo.ActorNewByOptionsGenerics(func(self *fpgo.ActorDef[interface{}], msg interface{}) {
@@ -368,26 +391,23 @@ func askMixScenario(late string, capacity, bound int) *vsched.Scenario {
 					vsched.Yield()
 					vsched.Event("leave", 0, m)
 				case *fpgo.AskDef[int, int]:
-					vsched.Event("enter", 1, 0)
+					// (the Ask is the sender's second submission: it is processed between the first and the third)
+					vsched.Event("enter", 0, 1)
 					if late == "late" {
 						time.Sleep(20 * time.Millisecond)
 						m.Reply(m.Message * 2)
 					}
-					vsched.Event("leave", 1, 0)
+					vsched.Event("leave", 0, 1)
 				}
 			}, make(chan interface{}, capacity), map[string]interface{}{})
 			actor.Send(0)
-			_, err := fpgo.AskNewGenerics[int, int](21).AskOnceWithTimeout(actor, 5*time.Millisecond)
+			_, err := fpgo.AskNewGenerics[int, int](21).AskOnceWithTimeout(actor, timeout)
 			vsched.Event("asked", err == fpgo.ErrActorAskTimeout)
-			actor.Send(1)
 			actor.Send(2)
+			actor.Send(3)
 		},
 		Check: func(r *vsched.Result) []vsched.Failure {
-			fs := mailboxOracle("actor-ask-mix", r, 1, 3)
-			if len(fs) == 0 && e1.Count(r, "enter", 1, 0) != 1 {
-				fs = append(fs, e1.Fail("C12|actor-ask-mix|duplicate", "the Ask message was processed %d times", e1.Count(r, "enter", 1, 0)))
-			}
-			return fs
+			return mailboxOracle("actor-ask-mix", r, 1, 4)
 		},
 	}
 }
@@ -411,6 +431,9 @@ func scenarios(tier string) []*vsched.Scenario {
 				continue
 			}
 			out = append(out, closeScenario("handler", c, before, b), closeScenario("actor", c, before, b))
+			if c <= 1 && before <= 1 {
+				out = append(out, closeScenario("handler-via-monadio-observe", c, before, b), closeScenario("handler-via-monadio-subscribe", c, before, b), closeScenario("handler-via-publisher", c, before, b))
+			}
 		}
 	}
 	if tier == "thorough" {
@@ -423,7 +446,7 @@ func scenarios(tier string) []*vsched.Scenario {
 	}
 	out = append(out, spawnScenario(false, b), spawnScenario(true, b), payloadScenario(0, 1), payloadScenario(3, 1))
 	for _, c := range []int{0, 2} {
-		out = append(out, askMixScenario("late", c, b), askMixScenario("never", c, b))
+		out = append(out, askMixScenario("late", c, b), askMixScenario("never", c, b), askMixScenarioT("never", c, 0, b), askMixScenarioT("late", c, -time.Millisecond, b))
 	}
 	for _, c := range []string{"Handler.New", "Handler.NewByCh", "Actor.New", "Actor.NewByOptions", "ActorNewGenerics", "ActorNewByOptionsGenerics"} {
 		out = append(out, twinScenario(c, b))
